@@ -480,7 +480,9 @@ def register_numpy():
 
     @normalize_token.register(np.memmap)
     def normalize_mmap(mm):
-        return hash_buffer_hex(np.ascontiguousarray(mm))
+        # The bytes alone do not tell how they are read: the same file mapped
+        # with another dtype or shape is a different array
+        return hash_buffer_hex(np.ascontiguousarray(mm)), mm.dtype, mm.shape
 
     @normalize_token.register(np.ufunc)
     def normalize_ufunc(func):
